@@ -20,12 +20,13 @@ theorem setSeqNum_out_eq (n : Int) (c : Conn) (hn : 0 < n) :
   rw [this, run_bind_of_ok (run_assert_true c), Out.pre_nil, run_bind_modify, run_modify]
   rfl
 
-/-- `_process_resend` after the range check -/
-def resendCore (env : Env) (sr : Msg → Bool) (b : Int) (rows : List Msg) (cur : Int) : M Unit := do
+/-- `_process_resend` after the range check (`e` = EndSeqNo, `0` already replaced by `sys.maxsize`) -/
+def resendCore (env : Env) (sr : Msg → Bool) (b e : Int) (rows : List Msg) (cur : Int) : M Unit := do
   setSeqNum (some b) none
-  let (gfb, gfe) ← resendLoop env sr rows b b
+  let (gfb, gfe) ← resendLoop env sr e rows b b
   M.assert (decide (gfe ≤ cur))
-  if gfb < cur then sendMsg env (gapFillMsg gfb cur) else pure ()
+  let gfe2 := min (e + 1) cur
+  if gfb < gfe2 then sendMsg env (gapFillMsg gfb gfe2) else pure ()
   setSeqNum (some cur) none
   let c2 ← M.get
   if c2.state != st_RESENDREQ_AWAITING then stateSet st_ACTIVE else pure ()
@@ -43,12 +44,64 @@ def processResend' (env : Env) (sr : Msg → Bool) (m : Msg) : M Unit := do
   if b < 1 || b ≥ c.sess.nextOut then
     if c.state != st_RESENDREQ_AWAITING then stateSet st_ACTIVE else pure ()
   else
-    resendCore env sr b (c.journal.recoverOut b (if e0 == 0 then sysMaxsize else e0)) c.sess.nextOut
+    resendCore env sr b (if e0 == 0 then sysMaxsize else e0) (c.journal.recoverOut b sysMaxsize)
+      c.sess.nextOut
 
 theorem processResend_eq (env : Env) (sr : Msg → Bool) (m : Msg) :
     processResend env sr m = processResend' env sr m := rfl
 
-/-- what the servicing leaves behind -/
+namespace Rows
+
+theorem insert_mid (k : Int) (m : Msg) (A B : Rows) (hA : AllLt k A) (hB : ∀ p ∈ B, k < p.1) :
+    insert k m (A ++ B) = some (A ++ (k, m) :: B) := by
+  induction A with
+  | nil =>
+    cases B with
+    | nil => rfl
+    | cons p r =>
+      obtain ⟨k', m'⟩ := p
+      have : k < k' := hB (k', m') (by simp)
+      simp [insert, this]
+  | cons p r ih =>
+    obtain ⟨k', m'⟩ := p
+    have hk : k' < k := hA (k', m') (by simp)
+    have hr : AllLt k r := fun q hq => hA q (by simp [hq])
+    simp only [List.cons_append, insert]
+    rw [if_neg (by omega), if_neg (by omega), ih hr]
+    rfl
+
+/-- an ascending list splits at any bound -/
+theorem split_le (e : Int) (rs : Rows) (hs : Sorted rs) :
+    rs = (rs.filter fun p => decide (p.1 ≤ e)) ++ (rs.filter fun p => decide (e < p.1)) := by
+  induction rs with
+  | nil => rfl
+  | cons p r ih =>
+    have hs' := List.pairwise_cons.mp hs
+    by_cases hp : p.1 ≤ e
+    · have h1 : decide (p.1 ≤ e) = true := by simpa using hp
+      have h2 : decide (e < p.1) = false := by simp only [decide_eq_false_iff_not]; omega
+      simp only [List.filter, h1, h2, List.cons_append]
+      rw [← ih hs'.2]
+    · have h1 : decide (p.1 ≤ e) = false := by simpa using hp
+      have h2 : decide (e < p.1) = true := by simp only [decide_eq_true_eq]; omega
+      have hnil : (r.filter fun q => decide (q.1 ≤ e)) = [] := by
+        rw [List.filter_eq_nil_iff]
+        intro q hq
+        have := hs'.1 q hq
+        simp only [decide_eq_true_eq]; omega
+      have hall : (r.filter fun q => decide (e < q.1)) = r := by
+        rw [List.filter_eq_self]
+        intro q hq
+        have := hs'.1 q hq
+        simp only [decide_eq_true_eq]; omega
+      simp only [List.filter, h1, h2, hnil, hall, List.nil_append]
+
+theorem mem_iff_find {k : Int} {g : Msg} {rs : Rows} (hs : Sorted rs) :
+    (k, g) ∈ rs ↔ find k rs = some g := ⟨find_of_mem hs, find_mem⟩
+
+end Rows
+
+/-- what the servicing leaves behind (`c` before, `c'` after, request `[b, e]`) -/
 structure ResendOut (env : Env) (sr : Msg → Bool) (c c' : Conn) (b e : Int) (es : List Effect) : Prop where
   nextOut : c'.sess.nextOut = c.sess.nextOut
   sender : c'.sess.sender = c.sess.sender
@@ -59,13 +112,14 @@ structure ResendOut (env : Env) (sr : Msg → Bool) (c c' : Conn) (b e : Int) (e
   noNew : newWrites es = []
   sorted : Rows.Sorted c'.journal.out
   rows : ∀ p ∈ c'.journal.out, RowOk p.2 p.1 ∧ p.1 < c.sess.nextOut
-  below : ∀ k, k < b → Rows.find k c'.journal.out = Rows.find k c.journal.out
-  above : ∀ k g', b ≤ k → Rows.find k c'.journal.out = some g' →
-    g'.mtype = mSequenceReset ∨ ∃ g rp, (k, g) ∈ Rows.range b e c.journal.out ∧ Replayable sr g ∧
-      prepareReplay g = .ok rp ∧ g' = buildFrame c.sess env.stamp rp k
-  copies : ∀ p ∈ Rows.range b e c.journal.out, Replayable sr p.2 →
-    ∃ rp, prepareReplay p.2 = .ok rp ∧
-      Rows.find p.1 c'.journal.out = some (buildFrame c.sess env.stamp rp p.1)
+  below : ∀ k g, k < b → ((k, g) ∈ c'.journal.out ↔ (k, g) ∈ c.journal.out)
+  above : ∀ k g', b ≤ k → (k, g') ∈ c'.journal.out →
+    (k ≤ e ∧ (g'.mtype = mSequenceReset ∨ ∃ g rp, (k, g) ∈ c.journal.out ∧ Replayable sr g ∧
+      prepareReplay g = .ok rp ∧ g' = buildFrame c.sess env.stamp rp k)) ∨
+    (e < k ∧ (k, g') ∈ c.journal.out)
+  copies : ∀ p ∈ c.journal.out, b ≤ p.1 → p.1 ≤ e → p.1 ≤ sysMaxsize → Replayable sr p.2 →
+    ∃ rp, prepareReplay p.2 = .ok rp ∧ (p.1, buildFrame c.sess env.stamp rp p.1) ∈ c'.journal.out
+  kept : ∀ p ∈ c.journal.out, b ≤ p.1 → e < p.1 → p.1 ≤ sysMaxsize → p ∈ c'.journal.out
 
 /-- the last three statements of `_process_resend`: counter restored, state ACTIVE unless awaiting -/
 theorem resend_finish (cur : Int) (c3 : Conn) (hcur : 0 < cur)
@@ -84,101 +138,9 @@ theorem resend_finish (cur : Int) (c3 : Conn) (hcur : 0 < cur)
   · rw [if_pos h12]
     unfold stateSet
     rw [run_bind_modify, run_emit]
-    exact ⟨_, _, rfl, rfl, rfl, rfl, rfl, hout, rfl, rfl, (by decide : st_DISCONNECTED_BROKEN_CONN < st_ACTIVE)⟩
+    exact ⟨_, _, rfl, rfl, rfl, rfl, rfl, hout, rfl, rfl,
+      (by decide : st_DISCONNECTED_BROKEN_CONN < st_ACTIVE)⟩
   · rw [if_neg h12, run_pure]
     exact ⟨_, _, rfl, rfl, rfl, rfl, rfl, hout, rfl, rfl, hl⟩
-
-theorem resendCore_run (env : Env) (sr : Msg → Bool) (c : Conn) (b e : Int) (hI : OutInv c)
-    (hst : st_LOGON_INITIAL_SENT < c.state) (hstamp : isLatin1 env.stamp = true)
-    (hb : 1 ≤ b) (hbc : b < c.sess.nextOut) :
-    ∃ c' es, resendCore env sr b (c.journal.recoverOut b e) c.sess.nextOut c = ⟨.ok (), c', es⟩ ∧
-      ResendOut env sr c c' b e es := by
-  have hlive : st_DISCONNECTED_BROKEN_CONN < c.state :=
-    Nat.lt_trans (by decide : st_DISCONNECTED_BROKEN_CONN < st_LOGON_INITIAL_SENT) hst
-  have hsock := hI.sock hlive
-  -- 1. rewind
-  have hc1 : ResendCtx env (rewind c b) := ⟨hst, hsock, hI.latin.1, hI.latin.2, hstamp⟩
-  have hout1 : (rewind c b).journal.out = Rows.below b c.journal.out := rfl
-  -- 2. loop
-  have hrs : ∀ p ∈ Rows.range b e c.journal.out, RowOk p.2 p.1 ∧ b ≤ p.1 ∧ p.1 < c.sess.nextOut := by
-    intro p hp
-    obtain ⟨hm, h1, _⟩ := Rows.mem_range.mp hp
-    exact ⟨(hI.rows p hm).1, h1, (hI.rows p hm).2⟩
-  obtain ⟨J', o', gfb', gfe', es1, heq, hout⟩ :=
-    resendLoop_spec env sr c.sess.nextOut (Rows.range b e c.journal.out) (rewind c b) b b hc1
-      (Rows.sorted_below b _ hI.sorted) (Rows.allLt_below b _)
-      (fun p hp => (hI.rows p (Rows.mem_below.mp hp).1).1)
-      (Rows.sorted_range b e _ hI.sorted) hrs (by omega) (by omega)
-  have hc2 : ResendCtx env (setOut (rewind c b) J' o') := hc1.setOut _ _
-  have hbelowJ : ∀ k, k < b → Rows.find k J' = Rows.find k c.journal.out := by
-    intro k hk
-    rw [hout.below k hk, hout1, Rows.find_below _ _ _ hI.sorted, if_pos hk]
-  -- 3./4. assertion, trailing gap fill
-  have hge : decide (gfe' ≤ c.sess.nextOut) = true := by simpa using hout.gfeCur
-  have hcur : (0 : Int) < c.sess.nextOut := by omega
-  unfold resendCore Journal.recoverOut
-  rw [run_bind_of_ok (setSeqNum_out_eq b c (by omega)), Out.pre_nil, run_bind_of_ok heq]
-  dsimp only
-  rw [hge, run_bind_of_ok (run_assert_true _), Out.pre_nil]
-  by_cases hg : gfb' < c.sess.nextOut
-  · rw [if_pos hg,
-      run_bind_of_ok (sendMsg_gapFill env _ gfb' c.sess.nextOut hc2 hout.allLt)]
-    have hJ3 : Rows.AllLt c.sess.nextOut (J' ++
-        [(gfb', buildFrame c.sess env.stamp (gapFillMsg gfb' c.sess.nextOut) gfb')]) := by
-      intro p hp
-      rcases List.mem_append.mp hp with hp | hp
-      · have := hout.allLt p hp; omega
-      · simp only [List.mem_singleton] at hp; subst hp; exact hg
-    obtain ⟨c', es2, hfin, hn2, f1, f2, f3, f4, f5, f6, f7⟩ :=
-      resend_finish c.sess.nextOut (setOut (setOut (rewind c b) J' o')
-        (J' ++ [(gfb', buildFrame c.sess env.stamp (gapFillMsg gfb' c.sess.nextOut) gfb')]) gfb')
-        hcur hJ3 hlive
-    refine ⟨c', es1 ++ ([Effect.write (buildFrame c.sess env.stamp (gapFillMsg gfb' c.sess.nextOut) gfb')] ++ es2), ?_, ?_⟩
-    · exact congrArg (fun o => Out.pre es1 (Out.pre
-        [Effect.write (buildFrame c.sess env.stamp (gapFillMsg gfb' c.sess.nextOut) gfb')] o)) hfin
-    · have hfind : ∀ k, Rows.find k c'.journal.out =
-          if k = gfb' then some (buildFrame c.sess env.stamp (gapFillMsg gfb' c.sess.nextOut) gfb')
-          else Rows.find k J' := by
-        intro k; rw [f4]; exact Rows.find_append_last _ _ _ _ hout.allLt
-      refine ⟨f1, f2, f3, f5, f6, f7, ?_, ?_, ?_, ?_, ?_, ?_⟩
-      · have : isNew (buildFrame c.sess env.stamp (gapFillMsg gfb' c.sess.nextOut) gfb') = false := by
-          rw [buildFrame_isNew]; rfl
-        simp [newWrites_append, hout.noNew, hn2, newWrites, this]
-      · rw [f4]; exact Rows.sorted_append_last _ _ _ hout.sorted hout.allLt
-      · intro p hp
-        rw [f4] at hp
-        rcases List.mem_append.mp hp with hp | hp
-        · exact ⟨hout.rowOk p hp, by have := hout.allLt p hp; omega⟩
-        · simp only [List.mem_singleton] at hp; subst hp
-          exact ⟨rowOk_gapFill hc2 _ _, hg⟩
-      · intro k hk
-        rw [hfind, if_neg (by have := hout.le; omega)]; exact hbelowJ k hk
-      · intro k g' hk hf
-        rw [hfind] at hf
-        split at hf
-        · cases hf; exact Or.inl rfl
-        · exact hout.above k g' hk hf
-      · intro p hp hpr
-        obtain ⟨rp, h1, h2⟩ := hout.copies p hp hpr
-        refine ⟨rp, h1, ?_⟩
-        have : p.1 < gfb' := by
-          have := hout.allLt _ (Rows.find_mem h2); simpa using this
-        rw [hfind, if_neg (by omega)]; exact h2
-  · rw [if_neg hg]
-    have hJ3 : Rows.AllLt c.sess.nextOut J' := fun p hp => by
-      have := hout.allLt p hp; have := hout.leCur; omega
-    obtain ⟨c', es2, hfin, hn2, f1, f2, f3, f4, f5, f6, f7⟩ :=
-      resend_finish c.sess.nextOut (setOut (rewind c b) J' o') hcur hJ3 hlive
-    refine ⟨c', es1 ++ es2, ?_, ?_⟩
-    · exact congrArg (fun o => Out.pre es1 o) hfin
-    · refine ⟨f1, f2, f3, f5, f6, f7, ?_, ?_, ?_, ?_, ?_, ?_⟩
-      · simp [newWrites_append, hout.noNew, hn2]
-      · rw [f4]; exact hout.sorted
-      · intro p hp
-        rw [f4] at hp
-        exact ⟨hout.rowOk p hp, hJ3 p hp⟩
-      · intro k hk; rw [f4]; exact hbelowJ k hk
-      · intro k g' hk hf; rw [f4] at hf; exact hout.above k g' hk hf
-      · intro p hp hpr; rw [f4]; exact hout.copies p hp hpr
 
 end AsyncFix.Session
